@@ -258,7 +258,8 @@ func runC18(r *Report, rng *rand.Rand, thorough bool) {
 
 	// ---------------- client side: the providers of pkg/securityprovider
 	icases := NewCases("cases_C18_intercept", "From V Require Import Model.Security Corr.Eval.", "provider * request * request", "mismatches_intercept")
-	creds := []string{"tok", "a b", "p@ss:w0rd", "ünï", "x=y&z", "", "very-long-" + strings.Repeat("k", 40)}
+	// incl. texts whose base64 form (after "user:") needs the two symbols that differ between the standard and the URL alphabet
+	creds := []string{"tok", "a b", "p@ss:w0rd", "ünï", "x=y&z", "a~cret", "p?ssword", "пароль", ">>>???~~~", "", "very-long-" + strings.Repeat("k", 40)}
 	nReq := 120
 	if thorough {
 		nReq = 2000
@@ -310,7 +311,7 @@ func runC18(r *Report, rng *rand.Rand, thorough bool) {
 		var pterm, what string
 		switch rng.Intn(5) {
 		case 0:
-			user := []string{"u", "user name", "ünï", ""}[rng.Intn(4)] // no ':' (RFC 7617)
+			user := []string{"u", "user name", "ünï", "", "bob", "joe", "анна"}[rng.Intn(7)] // no ':' (RFC 7617)
 			prov, _ = securityprovider.NewSecurityProviderBasicAuth(user, cred)
 			enc := "Basic " + base64.StdEncoding.EncodeToString([]byte(user+":"+cred))
 			pterm, what = "Basic "+gendoc.CoqStr(enc), "basic"
